@@ -1,16 +1,17 @@
-(* C16 - LV-DAG conversion round-trips; Evans simplification keeps the observed model. *)
+(* C16 - LV-DAG conversion round-trips; Evans simplification keeps the observed model.
+   Model: Graph/LatentDag.v (to/from_latent_variable_dag, the four rules of simplify_latent.py in the implemented order).
+   Specification: [latent_projection] - a directed edge for every directed path through latents only, a bidirected edge
+   for every pair of observed nodes reachable through latents only from a common latent. *)
 From Coq Require Import List Bool Arith.
-From Y0 Require Import Base.ListSet Graph.MixedGraph Graph.LatentDag Proofs.LatentDagP.
+From Y0 Require Import Base.ListSet Graph.MixedGraph Graph.LatentDag
+  Proofs.LatentDagP Proofs.LvProjP Proofs.LvFinalP Proofs.LvIdemP.
 Import ListNotations.
 
-(* Full statement for the simplification (kept visible). Proved so far: the observed-node clause
-   and the round trip; idempotence and projection equality are checked on every generated case
-   inside Coq (Corr/C16.v) but not yet proved for all inputs. *)
-Definition C16_simplification_statement : Prop :=
-  forall d : lv, (forall L, In L (llat d) -> ~ In (prime L) (lnodes d)) ->
-    is_acyclic (MG (lnodes d) (ledges d) []) = true ->
-    lv_eqb (simplify_latent_dag (simplify_latent_dag d)) (simplify_latent_dag d) = true /\
-    mg_eqb (from_lv (simplify_latent_dag d)) (latent_projection d) = true.
+(* well-formed input: edges join nodes, latents are nodes, node list without repetition, the name of a transformed latent
+   ("<name>_prime") is not in use, no directed cycle (the model's acyclicity test) *)
+Definition lv_ok (d : lv) : Prop :=
+  lwf d /\ NoDup (lnodes d) /\ (forall K, In K (llat d) -> ~ In (prime K) (lnodes d)) /\
+  is_acyclic (MG (lnodes d) (ledges d) []) = true.
 
 Theorem C16_round_trip (g : mg nat) :
   wf g -> (forall u, ~ In (u, u) (bid g)) ->
@@ -19,6 +20,20 @@ Theorem C16_round_trip (g : mg nat) :
   (forall a b, In (a, b) (bid (from_lv (to_lv g))) <-> In (a, b) (bid g)).
 Proof.
   exact (fun W N => conj (round_trip_nodes g W N) (conj (round_trip_dir g W) (round_trip_bid g W N))).
+Qed.
+
+(* the mixed graph read off the simplified DAG is exactly the latent projection of the original DAG *)
+Theorem C16_simplified_dag_reads_off_the_latent_projection (d : lv) :
+  lv_ok d -> mg_eqb (from_lv (simplify_latent_dag d)) (latent_projection d) = true.
+Proof.
+  exact (fun H => simplification_is_the_latent_projection d (proj1 H) (proj1 (proj2 H)) (proj1 (proj2 (proj2 H))) (proj2 (proj2 (proj2 H)))).
+Qed.
+
+(* simplifying again changes nothing - the very same nodes, edges and latent tags *)
+Theorem C16_simplification_is_idempotent (d : lv) :
+  lv_ok d -> simplify_latent_dag (simplify_latent_dag d) = simplify_latent_dag d.
+Proof.
+  exact (fun H => simplification_is_idempotent d (proj1 H) (proj1 (proj2 H)) (proj1 (proj2 (proj2 H))) (proj2 (proj2 (proj2 H)))).
 Qed.
 
 Theorem C16_simplification_keeps_observed_nodes (d : lv) :
@@ -31,6 +46,16 @@ Theorem C16_old_simplification_not_idempotent_refuted :
   exists d, lv_eqb (simplify_latent_dag_old (simplify_latent_dag_old d)) (simplify_latent_dag_old d) = false.
 Proof. exact simplify_old_not_idempotent. Qed.
 
+(* the hypotheses hold for a DAG with a chain of three latents (U1 -> U2 -> U3 -> A, U1 -> C, Z -> C -> A; even numbers,
+   primes are the odd successors) and the simplification really changes it *)
+Example C16_not_vacuous :
+  let d := LV [0; 2; 4; 6; 8; 10] [(0, 2); (2, 4); (4, 6); (0, 8); (10, 8); (8, 6)] [0; 2; 4] in
+  wfb (MG (lnodes d) (ledges d) []) = true /\ is_acyclic (MG (lnodes d) (ledges d) []) = true /\
+  lv_eqb (simplify_latent_dag d) d = false /\ bid (from_lv (simplify_latent_dag d)) <> [].
+Proof. vm_compute. repeat split; discriminate. Qed.
+
 Print Assumptions C16_round_trip.
+Print Assumptions C16_simplified_dag_reads_off_the_latent_projection.
+Print Assumptions C16_simplification_is_idempotent.
 Print Assumptions C16_simplification_keeps_observed_nodes.
 Print Assumptions C16_old_simplification_not_idempotent_refuted.
